@@ -357,7 +357,9 @@ def run(tier, seed):
                 tags = list(TAGS)
                 rng.shuffle(tags)
                 paths = ["/t/%s" % t for t in tags[:3]] + ["/.hidden/%s" % tags[3], "/deep/.er/%s" % tags[4], "/.top_%s" % tags[5]]
-                for p, t in zip(paths, tags):
+                # names that differ only by a character that some file systems dislike and by its usual replacements
+                paths += ["/q/q1:eu", "/q/q1_eu", "/q/q1%3Aeu"]
+                for p, t in zip(paths, tags + tags):
                     seq.append((p, "a", t))
                 # re-keep two of them with changed code, then back
                 seq.append((paths[0], "b", tags[0]))
